@@ -7,6 +7,8 @@ import (
 	"go/printer"
 	"go/token"
 	"go/types"
+	"os"
+	"path/filepath"
 	"regexp"
 	"strings"
 )
@@ -31,6 +33,9 @@ var c19Keep = regexp.MustCompile(`mutex\.(Lock|Unlock)\(\)|pending\.|\bcomplete\
 // response sent, the pipeline execution and the hand-over to the pool
 var c19KeepReq = regexp.MustCompile(`^return|stream\.Send\(|SendResponse\(|pipeline\.Execute\(|p\.process|processor\.Process\(|` +
 	`taskPool\.Submit\(|newExecutePipelineFn\(|^if err|RequestType|^default|^case `)
+
+// the group-by collect: the error branch of CollectTagValues and what it does with the error
+var c19KeepCollect = regexp.MustCompile(`CollectTagValues\(|^if err != nil|[sS]endResponse\(|^return|reduceTagValues\(`)
 
 func c19Steps(body *ast.BlockStmt) []string { return c19StepsKeep(body, c19Keep) }
 
@@ -259,6 +264,27 @@ func init() {
 			return "", fmt.Errorf("workerPool.Submit not found")
 		}
 		sb.WriteString("def submitSteps : List String := " + LeanStrList(c19Steps(sub.Body)) + "\n\n")
+		// anything Submit does after the send `p.tasks <- task` succeeded
+		recheck := false
+		ast.Inspect(sub.Body, func(n ast.Node) bool {
+			if cc, ok := n.(*ast.CommClause); ok {
+				if snd, ok := cc.Comm.(*ast.SendStmt); ok && len(cc.Body) > 0 {
+					_ = snd
+					recheck = true
+				}
+			}
+			return true
+		})
+		if !recheck {
+			// … or after the select statement
+			for i, st := range sub.Body.List {
+				if _, ok := st.(*ast.SelectStmt); ok && i != len(sub.Body.List)-1 {
+					recheck = true
+				}
+			}
+		}
+		sb.WriteString("/-- `workerPool.Submit` goes on after the task was put into the queue (e.g. re-checks Stopped()) -/\n")
+		sb.WriteString(fmt.Sprintf("def submitRechecksStopped : Bool := %v\n\n", recheck))
 		var rej []string
 		if fd := FindFunc(plf, "workerPool", "reject"); fd != nil {
 			rej = c19Steps(fd.Body)
@@ -313,6 +339,48 @@ func init() {
 		}
 		sb.WriteString("/-- processDataSearch / processMetadataSuggest return something else than nil after the pipeline was executed -/\n")
 		sb.WriteString(fmt.Sprintf("def processReturnsPipelineErr : Bool := %v\n\n", returnsErr))
+		// responders outside the three sites above: the group-by tag value collect answers a failure
+		// itself; it must go through the guarded SendResponse. Nobody outside SendResponse may call the
+		// unguarded sendResponse.
+		ents, err := os.ReadDir(filepath.Join(repo, "query/context"))
+		if err != nil {
+			return "", err
+		}
+		var unguarded []string
+		for _, e := range ents {
+			if !strings.HasSuffix(e.Name(), ".go") || strings.HasSuffix(e.Name(), "_test.go") || strings.HasPrefix(e.Name(), "zz_verif") {
+				continue
+			}
+			_, cf, err := ParseFile(repo, "query/context/"+e.Name())
+			if err != nil {
+				return "", err
+			}
+			for _, d := range cf.Decls {
+				fd, ok := d.(*ast.FuncDecl)
+				if !ok || fd.Body == nil {
+					continue
+				}
+				ast.Inspect(fd.Body, func(n ast.Node) bool {
+					if call, ok := n.(*ast.CallExpr); ok {
+						if sel, ok := call.Fun.(*ast.SelectorExpr); ok && sel.Sel.Name == "sendResponse" && fd.Name.Name != "SendResponse" {
+							unguarded = append(unguarded, e.Name()+":"+fd.Name.Name)
+						}
+					}
+					return true
+				})
+			}
+		}
+		sb.WriteString("/-- functions of query/context other than SendResponse that call the unguarded sendResponse -/\n")
+		sb.WriteString("def unguardedSendResponseCallers : List String := " + LeanStrList(unguarded) + "\n\n")
+		_, gcf, err := ParseFile(repo, "query/context/leaf_grouping_context.go")
+		if err != nil {
+			return "", err
+		}
+		cg := FindFunc(gcf, "LeafGroupingContext", "collectGroupByTagValues")
+		if cg == nil {
+			return "", fmt.Errorf("LeafGroupingContext.collectGroupByTagValues not found")
+		}
+		sb.WriteString("def collectGroupByTagValuesSteps : List String := " + LeanStrList(c19StepsKeep(cg.Body, c19KeepCollect)) + "\n\n")
 		_, thf, err := ParseFile(repo, "query/task_handler.go")
 		if err != nil {
 			return "", err
